@@ -195,6 +195,17 @@ def run_shard(sh, ctx):
 				sel = rng.choice([list(range(1, nr)) + [0], rng.sample(range(nr), nr), [rng.randrange(-nr, nr) for _ in range(nr + 2)], list(range(nr))[::-1]])
 				gs = gm.jaccarddist_matrix([qa], cont, ref_indices=sel, chunksize=rng.choice([None, 2, 3, 100]))[0]
 				ctx.count('bulk_selections')
+				# the caller's own output buffer, laid out column-major / as a column of a table: the distances must arrive in it
+				tab = np.full((nr, 3), np.nan, dtype='f4')
+				gm.jaccarddist_array(qa, cont, out=tab[:, 1])
+				fo = np.full((2, nr), np.nan, dtype='f4', order='F')
+				gm.jaccarddist_matrix([qa, qa], cont, out=fo)
+				ctx.count('bulk_strided_out_buffers')
+				for j, r in enumerate(refs):
+					exp = J.expected_bits(*J.dist_su(set(q), set(r)))
+					ctx.evals += 1
+					if not (J.bits(tab[j, 1]) == exp and J.bits(fo[0, j]) == exp and J.bits(fo[1, j]) == exp) or not np.isnan(tab[j, 0]):
+						ctx.violation('bulk-dist-bits', f'caller-supplied strided out= via {cname}: column view holds {float(tab[j, 1])!r}, Fortran-ordered matrix {float(fo[0, j])!r} / {float(fo[1, j])!r}; expected bits {exp:#x}', dict(query=q, ref=r, container=cname)); break
 				for pos, j in enumerate(sel):
 					su = J.dist_su(set(q), set(refs[j])); exp = J.expected_bits(*su)
 					ctx.evals += 1
